@@ -48,6 +48,8 @@ def plan(tier, seed):
     shards += [('rand', nrand // NSHARDS, seed * 1000 + k) for k in range(NSHARDS)]
     shards += [('docs', ndocs // NSHARDS, seed * 1000 + 100 + k) for k in range(NSHARDS)]
     shards += [('comp', ncomp // NSHARDS, seed * 1000 + 200 + k) for k in range(NSHARDS)]
+    if tier != 'quick':
+        shards += [('fuzz', FUZZ_RUNS, seed * 100 + k + 1) for k in range(NSHARDS)]
     return {'shards': shards,
             'bounds': {'soup_len_default': L, 'soup_len_everytype': LE, 'random_soups': nrand,
                        'random_soup_max_tokens': 40, 'documents': ndocs, 'composites': ncomp},
@@ -189,9 +191,19 @@ def run_shard(shard, res):
             check_source(src, docgrammar.CTX_OF[signame], res,
                          {'kind': 'src', 'ctx': docgrammar.CTX_OF[signame], 'src': src})
         hyp_run(docgrammar.source_strategy(), one, n, seed)
+    elif kind == 'fuzz':
+        from .. import fuzz
+        fuzz.campaign(ID, shard[1], shard[2], res)
     elif kind == 'comp':
         _, n, seed = shard
         hyp_run(composite_strategy(), lambda c: check_composite(c, res), n, seed)
+
+
+FUZZ_RUNS = 30000
+
+
+def fuzz_case(s, i):
+    return {'kind': 'src', 'ctx': ('default', 'extra', 'every')[i % 3], 'src': s}
 
 
 def check_case(case, res):
